@@ -237,6 +237,15 @@ def _par_bundles(tier, seed, props, modes, variants=None, nseeds=None, dds=DD3):
     return out
 
 
+def _par_deep(tier, seed, props, mode):
+    """2 workers, 2 pre-emptions, 4 symbolic costs, many small structures (publication / abort races)"""
+    limd = dict(max_paths=3000, max_secs=30) if tier == "quick" else dict(max_paths=60000, max_secs=1200)
+    out = []
+    for k in range(14 if tier == "quick" else 48):
+        out.append(P(kind="par", dd=("lel" if k % 3 else "frontier"), cache=str(k % 2 if k % 4 == 3 else 0), fringe="simple", width="1", threads=2, preempt=2, mode=mode, seed=seed * 1000 + 600 + k, rub="none", rev=k % 2, kmax=14, props=props, n=3, b=2, d=2, setnext=1, nsym=4, _engine="sched", **limd))
+    return out
+
+
 def plan(prop, tier, seed, find):
     """returns dict(engine, bundles, prefixes, vacuity, functions, bounds, nontrivial(rule text, fn))"""
     bound_dd = ("table models over mask states: n<=4 variables, <=3 base states, 2-3 decisions; all symbolic arc costs in +-10^6, incumbent in +-10^7 or none, "
@@ -283,7 +292,7 @@ def plan(prop, tier, seed, find):
         return dict(engine="symx", bundles=_solve_bundles(tier, seed, find, "C02", ["plain", "cutoff"], nseeds=(1 if tier == "quick" else 6)) + _par_bundles(tier, seed, "C02", ["plain", "cutoff"], nseeds=(1 if tier == "quick" else 4), dds=["lel", "pooled"]), prefixes=["C02:"], vacuity=dict(interrupted=1, not_interrupted=1), functions=FUNCS_SOLVE, bounds=bound_solve + "; cut-off poll K symbolic in 1..40 (every poll of the run forks)",
                     nontrivial=("decided sub-case with >= 2 explored paths", lambda r: r["paths"] >= 2))
     if prop == "C05":
-        return dict(engine="symx", bundles=_solve_bundles(tier, seed, find, "C05", ["cutoff"]) + _polls_bundles(tier, seed, "C05") + _par_bundles(tier, seed, "C05", ["cutoff"], nseeds=(1 if tier == "quick" else 6)), prefixes=["C05:"], vacuity=dict(interrupted=1, not_interrupted=1, polls_ge8=1), functions=FUNCS_SOLVE, bounds=bound_solve + "; cut-off poll K symbolic in 1..40 (sequential solver; parallel part see C05 in DESIGN.md)",
+        return dict(engine="symx", bundles=_solve_bundles(tier, seed, find, "C05", ["cutoff"]) + _polls_bundles(tier, seed, "C05") + _par_bundles(tier, seed, "C05", ["cutoff"], nseeds=(1 if tier == "quick" else 6)) + _par_deep(tier, seed, "C05", "cutoff"), prefixes=["C05:"], vacuity=dict(interrupted=1, not_interrupted=1, polls_ge8=1), functions=FUNCS_SOLVE, bounds=bound_solve + "; cut-off poll K symbolic in 1..40 (sequential solver; parallel part see C05 in DESIGN.md)",
                     nontrivial=("decided sub-case in which the cut-off interrupted the run on some path", lambda r: r["notes"].get("interrupted", 0) > 0))
     if prop == "C19":
         return dict(engine="symx", bundles=_solve_bundles(tier, seed, find, "C19", ["cutoff2"]) + _polls_bundles(tier, seed, "C19"), prefixes=["C19:"], vacuity=dict(interrupted=1, boundary=1, polls_ge8=1), functions=FUNCS_SOLVE, bounds=bound_solve + "; two solver runs with cut-off at poll K and K+1 inside one symbolic execution, K symbolic in 1..40; plus, on n=4 models, one uninterrupted run whose wrappers record the upper bound at every poll (covers all K at once; counterexamples are replayed with real cut-off runs)",
